@@ -5,7 +5,8 @@
 // stderr (HANGDIAG lines), killed and reported as "HANG after_result=<0|1> partial=...".
 //   harness seq   : stdin lines "n1 n2 ..."                 -> "r0 r1 r2 ..." (numTaskingThreads before / after each init)
 //   harness pf    : stdin lines "nfirst n size dur"         -> "report=R count=C max_inside=M ids=I"
-//                   (nfirst != 0: an earlier initTaskingSystem(nfirst); dur: 0 | 50 | -1 (uneven))
+//                   (nfirst != 0: an earlier initTaskingSystem(nfirst); dur: 0 | 50 | -1 (uneven) | -2 (NESTED:
+//                   each of the size outer bodies runs parallel_for(8) with 200 us bodies; count = inner bodies))
 #include <atomic>
 #include <chrono>
 #include <cstdio>
@@ -66,6 +67,24 @@ static std::string child_pf(const std::vector<int> &a)
   std::atomic<int> inside{0}, maxin{0}, count{0};
   std::mutex m;
   std::set<std::thread::id> ids;
+  if (dur == -2) {
+    // NESTED: every outer body runs its own parallel_for(8) whose bodies spin 200 us; only the INNER bodies are counted.
+    // The limit is on threads inside bodies at the same time, whatever the nesting.
+    parallel_for(size, [&](int) {
+      parallel_for(8, [&](int) {
+        int cur = ++inside;
+        int old = maxin.load();
+        while (cur > old && !maxin.compare_exchange_weak(old, cur)) {}
+        {
+          std::lock_guard<std::mutex> l(m);
+          ids.insert(std::this_thread::get_id());
+        }
+        spin_us(200);
+        count++;
+        --inside;
+      });
+    });
+  } else
   parallel_for(size, [&](int i) {
     int cur = ++inside;
     int old = maxin.load();
